@@ -240,6 +240,13 @@ pub fn judge(scn: &Scn, out: &Outcome) -> Vec<Finding> {
             PFault::DoubleDrop => ("C05", format!("C05|double-drop|{}", fl)),
         };
         fs.push(f(prop, sig, format!("{:?}", p)));
+        if *p == PFault::DroppedWhileBorrowed {
+            fs.push(f(
+                "C05",
+                format!("C05|dropped-while-a-consumer-is-using-it|{}", fl),
+                format!("{:?}", p),
+            ));
+        }
     }
     if complete && out.teardown_done && !out.ledger.never_dropped.is_empty() {
         fs.push(f(
@@ -316,7 +323,7 @@ pub fn judge(scn: &Scn, out: &Outcome) -> Vec<Finding> {
                 let prop: &'static str = match opk {
                     Some(OpK::Recv) | Some(OpK::RecvView) | Some(OpK::RecvAll)
                     | Some(OpK::IterAll) | Some(OpK::IterWithAll) => {
-                        if scn.cfg.fut {
+                        if scn.cfg.fut || scn.hang_prop == "C07" {
                             scn.hang_prop
                         } else {
                             "C08"
@@ -329,7 +336,13 @@ pub fn judge(scn: &Scn, out: &Outcome) -> Vec<Finding> {
                             "C14"
                         }
                     }
-                    Some(OpK::StreamNext) | Some(OpK::StreamAll) => "C14",
+                    Some(OpK::StreamNext) | Some(OpK::StreamAll) => {
+                        if scn.hang_prop == "C07" {
+                            "C07"
+                        } else {
+                            "C14"
+                        }
+                    }
                     _ => scn.hang_prop,
                 };
                 if !props.contains(&prop) {
@@ -486,6 +499,18 @@ pub fn judge(scn: &Scn, out: &Outcome) -> Vec<Finding> {
             }
         }
         for (h, seq) in &per_handle {
+            // a strict order has no repeats: the same consumer getting a value again
+            let mut seen_h = BTreeSet::new();
+            for id in seq {
+                if !seen_h.insert(*id) {
+                    fs.push(f(
+                        "C02",
+                        format!("C02|consumer-receives-a-value-again|{}", fl),
+                        format!("consumer h{} received {:?}", h, seq),
+                    ));
+                    break;
+                }
+            }
             for w in seq.windows(2) {
                 add(w[0], w[1], format!("consumer h{} received {} before {}", h, w[0], w[1]), &mut reach);
             }
